@@ -9,8 +9,10 @@ package main
 // (input, observation) cases for C03_Model.
 
 import (
+	"bytes"
 	"context"
 	"crypto/x509"
+	"encoding/json"
 	"encoding/pem"
 	"errors"
 	"fmt"
@@ -153,7 +155,8 @@ func runC03(a *Args) error {
 	}
 	now := time.Now()
 	pool := &certPool{}
-	desc := ocispec.Descriptor{MediaType: "application/vnd.oci.image.manifest.v1+json", Digest: digest.Digest(strings.TrimPrefix(TestRef, TestScope+"@")), Size: 528}
+	desc := ocispec.Descriptor{MediaType: "application/vnd.oci.image.manifest.v1+json", Digest: digest.Digest(strings.TrimPrefix(TestRef, TestScope+"@")), Size: 528,
+		Annotations: map[string]string{"c03.meta": "v", "c03.other": "w"}}
 
 	// TSA
 	tsaRoot := Mint(CertSpec{Subject: Name("c03 tsa root"), NotBefore: now.Add(-400 * time.Hour), NotAfter: now.Add(400 * time.Hour), IsCA: true}, nil)
@@ -300,7 +303,13 @@ func runC03(a *Args) error {
 		inner  truststore.X509TrustStore
 		mock   *MockStore
 		selIdx int
+		doc    *trustpolicy.OCIDocument
+		// caller-owned option maps; a history hands the SAME objects to consecutive calls
+		userMeta  map[string]string
+		pluginCfg map[string]string
+		shared    bool
 	}
+	sentinel := unrelLeaf.C // sits in the spare capacity behind every slice the scripted store hands out
 	fillMock := func(m *MockStore, stores []storeDesc) {
 		for k := range m.Certs {
 			delete(m.Certs, k)
@@ -313,10 +322,13 @@ func runC03(a *Args) error {
 			if s.Nil {
 				m.Certs[k] = nil
 			} else {
-				m.Certs[k] = []*x509.Certificate{}
-			}
-			for _, cid := range s.Certs {
-				m.Certs[k] = append(m.Certs[k], pool.get(cid))
+				// spare capacity with a sentinel: an append in place by the library is visible
+				back := make([]*x509.Certificate, 0, len(s.Certs)+1)
+				for _, cid := range s.Certs {
+					back = append(back, pool.get(cid))
+				}
+				back = append(back, sentinel)
+				m.Certs[k] = back[:len(s.Certs)]
 			}
 			if s.Fail {
 				m.Fail[k] = true
@@ -357,7 +369,7 @@ func runC03(a *Args) error {
 		if err != nil {
 			panic(fmt.Sprintf("c03: case %d: generated policy rejected: %v", my, err))
 		}
-		ss.v = v
+		ss.v, ss.doc = v, doc
 		if c.Mutate != nil && ss.selIdx >= 0 {
 			doc.TrustPolicies[ss.selIdx].TrustStores = append([]string(nil), c.Mutate...)
 		}
@@ -437,10 +449,81 @@ func runC03(a *Args) error {
 			}
 		}
 		// run
-		outcome, verr := v.Verify(context.Background(), desc, e.env[ekey], notation.VerifierVerifyOptions{ArtifactReference: c.Repo + digestPart, SignatureMediaType: c.Format})
+		// FRAME CHECK: everything the caller owns and hands to the library by reference is
+		// snapshotted deeply before the call and compared after it
+		if ss.userMeta == nil || !ss.shared {
+			ss.userMeta = map[string]string{"c03.meta": "v"}
+			ss.pluginCfg = map[string]string{"cfg": "x", "other": "y"}
+		}
+		type storeSnap struct {
+			elems []*x509.Certificate
+			full  []*x509.Certificate
+		}
+		snapDoc, _ := json.Marshal(ss.doc)
+		snapDesc, _ := json.Marshal(desc)
+		snapEnv := append([]byte(nil), e.env[ekey]...)
+		snapMeta, _ := json.Marshal(ss.userMeta)
+		snapCfg, _ := json.Marshal(ss.pluginCfg)
+		snapStores := map[StoreKey]storeSnap{}
+		if ss.mock != nil {
+			for k, sl := range ss.mock.Certs {
+				snapStores[k] = storeSnap{elems: append([]*x509.Certificate(nil), sl...), full: append([]*x509.Certificate(nil), sl[:cap(sl)]...)}
+			}
+		}
+		var poolRaw [][]byte
+		for _, pc := range pool.certs {
+			poolRaw = append(poolRaw, pc.Raw)
+		}
+		opts := notation.VerifierVerifyOptions{ArtifactReference: c.Repo + digestPart, SignatureMediaType: c.Format, PluginConfig: ss.pluginCfg, UserMetadata: ss.userMeta}
+		outcome, verr := v.Verify(context.Background(), desc, e.env[ekey], opts)
+		var frame []string
+		if d, _ := json.Marshal(ss.doc); !bytes.Equal(d, snapDoc) {
+			frame = append(frame, "trust policy document")
+		}
+		if d, _ := json.Marshal(desc); !bytes.Equal(d, snapDesc) {
+			frame = append(frame, "target descriptor")
+		}
+		if !bytes.Equal(snapEnv, e.env[ekey]) {
+			frame = append(frame, "signature envelope bytes")
+		}
+		if d, _ := json.Marshal(ss.userMeta); !bytes.Equal(d, snapMeta) {
+			frame = append(frame, "VerifierVerifyOptions.UserMetadata")
+		}
+		if d, _ := json.Marshal(ss.pluginCfg); !bytes.Equal(d, snapCfg) {
+			frame = append(frame, "VerifierVerifyOptions.PluginConfig")
+		}
+		if ss.mock != nil {
+			changed := len(ss.mock.Certs) != len(snapStores)
+			for k, sn := range snapStores {
+				sl, ok := ss.mock.Certs[k]
+				if !ok || len(sl) != len(sn.elems) || cap(sl) != len(sn.full) {
+					changed = true
+					continue
+				}
+				for j, x := range sl[:cap(sl)] {
+					if x != sn.full[j] {
+						changed = true
+					}
+				}
+			}
+			if changed {
+				frame = append(frame, "certificate slice returned by the trust store")
+			}
+		}
+		for j, pc := range pool.certs {
+			if j < len(poolRaw) && (len(pc.Raw) != len(poolRaw[j]) || (len(pc.Raw) > 0 && &pc.Raw[0] != &poolRaw[j][0])) {
+				frame = append(frame, "certificate object of the trust store")
+				break
+			}
+		}
 		if !emit {
 			return
 		}
+		for _, what := range frame {
+			w.ImplViolation(my, "library mutated caller-owned "+what, c, "frame:"+strings.ReplaceAll(what, " ", "-"))
+		}
+		w.Count("frame_check", fmt.Sprint(len(frame) == 0))
+		w.Count("shared_option_objects", fmt.Sprint(ss.shared))
 		// observation
 		authTerm := "None"
 		c.Auth = "absent"
@@ -562,6 +645,7 @@ func runC03(a *Args) error {
 			return
 		}
 		ss := setup(first, steps[0])
+		ss.shared = (first/2)%2 == 0 || len(steps) > 2
 		var before []string
 		for k := 0; k <= last; k++ {
 			if k > 0 {
